@@ -140,7 +140,19 @@ pub fn build(e: &mut Ent, f: &Force) -> (StepCase, Insn, Option<u32>, u32) {
     }
     let code = encode(&insn);
     let avoid: Vec<u32> = target.into_iter().collect();
-    let pc = e.code_addr(code.len() as u32, &avoid);
+    let mut pc = e.code_addr(code.len() as u32, &avoid);
+    // rare class: the memory operand overlaps the executing instruction's own bytes (all instruction
+    // words must be fetched before the operand is accessed)
+    if let Some(t) = target {
+        if Region::of(t).map(|r| r != Region::Vector).unwrap_or(false) && e.chance(1, 24) {
+            let len = code.len() as u32;
+            let cand = (t & !1).wrapping_add(2).wrapping_sub(2 * e.below(len / 2 + 2));
+            let (lo, hi) = Region::of(t).unwrap().bounds();
+            if cand >= lo && cand + len + 2 <= hi + 1 {
+                pc = cand;
+            }
+        }
+    }
     let bus = e.bus_cfg();
     (StepCase { code, pc, er, ccr, patches, bus, irq: None }, insn, target, moved)
 }
